@@ -133,7 +133,7 @@ CLAIMED = {
               "positivity, monotonicity, asymptotes, dw/dk and the spectrum-level arrays are checked on the implementation "
               "over a (w, d) log grid."),
         design="6/C07", technique="Lean 4 proof at ℝ (calculus in Mathlib) + Float-model correspondence + residual scan",
-        note=PROOF_NOTE + " Sampled, not proved: that 10 Newton steps reach 1e-3 for every (w, d) of the box (max residual seen is recorded in the evidence)."),
+        note=PROOF_NOTE + " Second tie: intrinsic_dispersion_relation and ratio_group_velocity_to_phase_velocity are machine-translated from the current source on every run and proved equal to the model's omega / ratio (OsuProps/C07Gen.lean). Sampled, not proved: that 10 Newton steps reach 1e-3 for every (w, d) of the box (max residual seen is recorded in the evidence)."),
     "C15": dict(
         text=("Lean 4 theorems: (a) C-order index arithmetic of flatten for every number and size of leading dimensions: "
               "unravel(ravel idx) = idx for every valid multi-index, ravel(unravel k) = k with a valid multi-index for every "
@@ -201,7 +201,7 @@ CLAIMED = {
               "von-Mises mixtures with spread >= 1.5 bins (N in 24,36,72,144), Newton-vs-scipy agreement, rotation by every k "
               "and mirror equivariance of all four variants, finite-difference Jacobian, on the implementation."),
         design="6/C06", technique="Lean 4 proof at ℝ (loop invariant, closed-form Jacobian, HasDerivAt) + Float-model correspondence + implementation oracles",
-        note=PROOF_NOTE + " That the solvers do converge on resolved inputs, MEM's discretisation error (exact aliasing identity in the harness) and rotation equivariance of whole Newton / scipy runs and the mirror image are decided by the oracles only (the theorems cover MEM, the approximate variant, the first guess and the distribution for any multipliers)."),
+        note=PROOF_NOTE + " Second tie: tools/py2lean_arith.py re-translates mem2.py: initial_value from the current source on every run and OsuProps/C06Gen.lean proves it equal to the model's first guess. That the solvers do converge on resolved inputs, MEM's discretisation error (exact aliasing identity in the harness) and rotation equivariance of whole Newton / scipy runs and the mirror image are decided by the oracles only (the theorems cover MEM, the approximate variant, the first guess and the distribution for any multipliers)."),
     "C08": dict(
         text=("Lean 4 theorems at ℝ over the model of st4_wind_input / st4_wave_breaking / st6_wave_breaking / operations "
               "(one spatial point, wavenumbers and group velocities as inputs): the ST4 input of every bin is >= 0 for a "
@@ -243,7 +243,7 @@ CLAIMED = {
               "stress balance and the Janssen roughness; Charnock residual <= 1e-4, monotonicity, NaN and the "
               "single-sign-change residual (1e-4) oracles."),
         design="6/C10, 11.3", technique="Lean 4 proof at ℝ (solver invariants by induction over iterations, IVT) + Float-model correspondence + residual oracles",
-        note=PROOF_NOTE + " Convergence itself and the 1e-4 Janssen residual are sampled, not proved; monotonicity is proved for exact solutions and sampled for the returned approximations."),
+        note=PROOF_NOTE + " Second tie: roughness_wu / drag_coefficient_wu are machine-translated on every run and proved equal to the model's first guess (OsuProps/C10Gen.lean). Convergence itself and the 1e-4 Janssen residual are sampled, not proved; monotonicity is proved for exact solutions and sampled for the returned approximations."),
     "C11": dict(
         text=("Lean 4 theorems at ℝ: U10 = 0 when the integrated dissipation is 0; without direction iteration the direction "
               "handed in is returned; with hard bounds (0, inf) and a non-negative guess no iterate is negative, so the "
